@@ -427,4 +427,112 @@ theorem closure_of_finite {n : Nat} {a : SF} (hfin : ∀ i, i < n → ∀ j, j <
   rw [mk_length, identity_eq, mk_congr hk]
   exact closureFrom_chain hfin k hk _ 0 (Nat.zero_le _) (Or.inr (by omega))
 
+/-! ## `∞` somewhere in `a`: both chains collapse to the all-`∞` matrix after two rounds -/
+
+def fInf : SF := fun _ _ => Scalar.i
+
+theorem fmul_eq_i {n : Nat} {f g : SF} {i j k : Nat} (hk : k < n) (h : f i k = .i ∨ g k j = .i) :
+    fmul n f g i j = .i := by
+  unfold fmul
+  apply sumAll_eq_i
+  apply List.mem_map.2
+  refine ⟨k, List.mem_range.2 hk, ?_⟩
+  rcases h with h | h
+  · rw [h]; exact (infty_absorbs_prod _).1
+  · rw [h]; exact (infty_absorbs_prod _).2
+
+theorem fI_ne_i (i j : Nat) : fI i j ≠ .i := by
+  unfold fI; split <;> simp
+
+section infinite
+variable {n : Nat} {a : SF} {x y : Nat} (hx : x < n) (hy : y < n) (hxy : a x y = .i)
+include hx hy hxy
+
+omit hy in
+theorem P_one_col (i : Nat) : P n a 1 i y = .i :=
+  fmul_eq_i hx (Or.inr hxy)
+
+theorem P_ge_two (j : Nat) : P n a (j + 2) = fInf := by
+  induction j with
+  | zero =>
+    funext i l
+    exact fmul_eq_i hy (Or.inl (P_one_col hx hxy i))
+  | succ j ih =>
+    funext i l
+    show fmul n (P n a (j + 2)) a i l = .i
+    rw [ih]
+    exact fmul_eq_i hx (Or.inl rfl)
+
+theorem S_ge_two (j : Nat) : S n a (j + 2) = fInf := by
+  funext i l
+  show S n a (j + 1) i l + P n a (j + 2) i l = .i
+  rw [P_ge_two hx hy hxy j]
+  exact (infty_absorbs_sum _).2
+
+theorem S_stationary_infinite (k : Nat) (hk : EqOn n (S n a (k + 1)) (S n a k)) :
+    S n a (k + 1) = fInf := by
+  cases k with
+  | zero =>
+    exfalso
+    have h := hk x hx y hy
+    have h1 : S n a 1 x y = .i := by
+      show fI x y + P n a 1 x y = .i
+      rw [P_one_col hx hxy x]
+      exact (infty_absorbs_sum _).2
+    rw [h1] at h
+    exact fI_ne_i x y h.symm
+  | succ k => exact S_ge_two hx hy hxy k
+
+theorem closure_of_infinite : Spec.SMat.closure (mk n a) = mk n fInf := by
+  have hT1 : ∀ l, step n a fI x l = .i := by
+    intro l
+    show fI x l + fmul n a fI x l = .i
+    rw [fmul_eq_i hy (Or.inl hxy)]
+    exact (infty_absorbs_sum _).2
+  have hT2 : ∀ s : SF, (∀ l, s x l = .i) → step n a s = fInf := by
+    intro s hs
+    funext i l
+    show fI i l + fmul n a s i l = .i
+    rw [fmul_eq_i hx (Or.inr (hs l))]
+    exact (infty_absorbs_sum _).2
+  have hT2' := hT2 _ hT1
+  have hT3 : step n a fInf = fInf := hT2 _ (fun _ => rfl)
+  have hfuel : ∃ m, 4 * n * n + 1 = m + 2 := by
+    have h1 : 1 ≤ n * n := Nat.mul_pos (by omega) (by omega)
+    have h2 : 4 * n * n = 4 * (n * n) := Nat.mul_assoc _ _ _
+    exact ⟨4 * n * n - 1, by omega⟩
+  obtain ⟨m, hm⟩ := hfuel
+  unfold Spec.SMat.closure
+  rw [mk_length, identity_eq, hm, closureFrom_succ]
+  split
+  · rename_i heq
+    exfalso
+    have := mk_inj heq x hx y hy
+    rw [hT1 y] at this
+    exact fI_ne_i x y this.symm
+  · rw [closureFrom_succ, hT2']
+    split
+    · rename_i heq; exact heq.symm
+    · cases m with
+      | zero => rw [Spec.SMat.closureFrom]
+      | succ m =>
+        rw [closureFrom_succ, hT3]
+        simp
+
+end infinite
+
+/-- Whatever `a` is: a stationary point of the code's chain is the reference closure. -/
+theorem closure_of_stationary (n : Nat) (a : SF) (k : Nat) (hk : EqOn n (S n a (k + 1)) (S n a k)) :
+    Spec.SMat.closure (mk n a) = mk n (S n a (k + 1)) := by
+  by_cases hfin : ∀ i, i < n → ∀ j, j < n → a i j ≠ .i
+  · exact closure_of_finite hfin k hk
+  · have hex : ∃ x, x < n ∧ ∃ y, y < n ∧ a x y = .i := by
+      apply Classical.byContradiction
+      intro hno
+      apply hfin
+      intro i hi j hj e
+      exact hno ⟨i, hi, j, hj, e⟩
+    obtain ⟨x, hx, y, hy, hxy⟩ := hex
+    rw [closure_of_infinite hx hy hxy, S_stationary_infinite hx hy hxy k hk]
+
 end Mwp.RelFix
